@@ -110,7 +110,7 @@ inline std::vector<Case> read_cases(FILE* in) {
 }
 
 // Runs every case in a child. `timeout_s` is the per-case deadline (a hang is a result).
-inline int run_all(CaseFn fn, unsigned timeout_s = 20) {
+inline int run_all(CaseFn fn, unsigned timeout_s = 60) {
     const char* t = getenv("VH_TIMEOUT"); if (t) timeout_s = (unsigned) atoi(t);
     std::vector<Case> cases = read_cases(stdin);
     bool nofork = getenv("VH_NOFORK") != 0;
